@@ -118,8 +118,8 @@ impl Check for C05 {
     }
     fn lanes(&self, tier: Tier) -> Vec<(&'static str, usize, usize)> {
         match tier {
-            Tier::Quick => vec![("thresh-n", 20_000, 64), ("dispatch", 20_000, 300)],
-            Tier::Thorough => vec![("thresh-n", 2_000_000, 64), ("dispatch", 1_000_000, 400)],
+            Tier::Quick => vec![("thresh-n", 2_000_000, 64), ("dispatch", 2_000_000, 300)],
+            Tier::Thorough => vec![("thresh-n", 40_000_000, 64), ("dispatch", 40_000_000, 400)],
         }
     }
 
